@@ -388,6 +388,16 @@ func (w *world) symbols() {
 		txn, _ := w.txnOfKind(k)
 		w.sym["raw."+k] = hex.EncodeToString(mustSerialize(txn))
 	}
+	// structurally inconsistent but decodable transactions derived from valid ones over real unspents
+	for _, b := range structBases {
+		base, ok := w.baseTxn(b)
+		if !ok {
+			panic("harness: cannot build base transaction " + b)
+		}
+		for _, m := range structMuts {
+			w.sym["raw."+b+"."+m] = hex.EncodeToString(mustSerialize(w.mutateTxn(base, m)))
+		}
+	}
 	raw := w.sym["raw.valid"]
 	w.sym["raw.trunc"] = raw[:len(raw)/2]
 	w.sym["raw.odd"] = raw[:len(raw)-1]
@@ -531,4 +541,204 @@ func (w *world) txnOfKind(kind string) (coin.Transaction, facts) {
 		f.ins = append(f.ins, w.status(in))
 	}
 	return txn, f
+}
+
+// ---- structurally inconsistent transactions --------------------------------------------------------
+//
+// Bases are VALID unsigned transactions over real unspent outputs of the node (two inputs of wallet 0,
+// two inputs of the encrypted wallet 1, one input of the bip44 wallet 2, one input of raw key 3); every
+// mutation keeps the transaction decodable and - unless the mutation is about the header itself -
+// recomputes Length and InnerHash afterwards, so that a handler cannot reject it for a stale header
+// before reaching the code that trusts the structure.
+
+var structBases = []string{"w0two", "w1two", "w2one", "k3one"}
+
+var structMuts = []string{"ok", "sigs_one", "sigs_nm1", "sigs_np1", "sigs_np5", "sigs_empty", "sigs_garbage", "sigs_first_garbage",
+	"in_none", "in_dup", "in_dup_sigs_one", "in_unknown", "in_all_unknown", "in_extra_unknown", "in_extra_known", "in_spent", "in_many",
+	"inner_zero", "inner_stale", "len_plus", "len_minus", "len_zero", "len_huge", "type1", "type255",
+	"out_none", "out_null", "out_zerocoins", "out_overflow", "out_hours_overflow", "out_dup", "out_many", "out_precision"}
+
+func (w *world) ownedUnspent(symAddrs ...string) []coin.UxOut {
+	var out []coin.UxOut
+	for _, sa := range symAddrs {
+		a := cipher.MustDecodeBase58Address(w.sym[sa])
+		for _, id := range w.sortedIDs(func(id cipher.SHA256) bool { return !w.spent[id] && !w.inPool[id] && w.created[id] == a }) {
+			out = append(out, w.uxOf[id])
+		}
+	}
+	return out
+}
+
+func (w *world) baseTxn(name string) (coin.Transaction, bool) {
+	var uxs []coin.UxOut
+	switch name {
+	case "w0two":
+		uxs = w.ownedUnspent("w0a0", "w0a1")
+		if len(uxs) > 2 {
+			uxs = uxs[:2]
+		}
+		if len(uxs) < 2 {
+			return coin.Transaction{}, false
+		}
+	case "w1two":
+		uxs = w.ownedUnspent("w1a0", "w1a1")
+		if len(uxs) < 2 {
+			return coin.Transaction{}, false
+		}
+		uxs = uxs[:2]
+	case "w2one":
+		uxs = w.ownedUnspent("w2a0")
+		if len(uxs) < 1 {
+			return coin.Transaction{}, false
+		}
+		uxs = uxs[:1]
+	case "k3one":
+		uxs = w.ownedUnspent("a3")
+		if len(uxs) < 1 {
+			return coin.Transaction{}, false
+		}
+		uxs = uxs[:1]
+	}
+	var txn coin.Transaction
+	var coins, hours uint64
+	for _, ux := range uxs {
+		must(txn.PushInput(ux.Hash()), "PushInput")
+		coins += ux.Body.Coins
+		h, err := ux.CoinHours(w.now)
+		must(err, "CoinHours")
+		hours += h
+	}
+	must(txn.PushOutput(w.addrs[1], 1e6, hours/8), "PushOutput")
+	must(txn.PushOutput(uxs[0].Body.Address, coins-1e6, hours/8), "PushOutput")
+	txn.Sigs = make([]cipher.Sig, len(txn.In))
+	must(txn.UpdateHeader(), "UpdateHeader")
+	return txn, true
+}
+
+func cloneTxn(t coin.Transaction) coin.Transaction {
+	c := t
+	c.Sigs = append([]cipher.Sig{}, t.Sigs...)
+	c.In = append([]cipher.SHA256{}, t.In...)
+	c.Out = append([]coin.TransactionOutput{}, t.Out...)
+	return c
+}
+
+func (w *world) mutateTxn(base coin.Transaction, mut string) coin.Transaction {
+	t := cloneTxn(base)
+	n := len(t.In)
+	garbage := func(i int) cipher.Sig {
+		var s cipher.Sig
+		for j := range s {
+			s[j] = byte(17*i + j + 1)
+		}
+		return s
+	}
+	unknown := func(i int) cipher.SHA256 { return cipher.SumSHA256([]byte("c28 struct unknown " + strconv.Itoa(i))) }
+	header := true // recompute Length / InnerHash after the mutation
+	switch mut {
+	case "ok":
+	case "sigs_one":
+		t.Sigs = make([]cipher.Sig, 1)
+	case "sigs_nm1":
+		if n > 1 {
+			t.Sigs = make([]cipher.Sig, n-1)
+		} else {
+			t.Sigs = make([]cipher.Sig, 1)
+			t.In = append(t.In, t.In[0])
+		}
+	case "sigs_np1":
+		t.Sigs = make([]cipher.Sig, n+1)
+	case "sigs_np5":
+		t.Sigs = make([]cipher.Sig, n+5)
+	case "sigs_empty":
+		t.Sigs = nil
+	case "sigs_garbage":
+		for i := range t.Sigs {
+			t.Sigs[i] = garbage(i)
+		}
+	case "sigs_first_garbage":
+		t.Sigs[0] = garbage(0)
+	case "in_none":
+		t.In = nil
+	case "in_dup":
+		t.In = append(t.In, t.In[0])
+		t.Sigs = make([]cipher.Sig, len(t.In))
+	case "in_dup_sigs_one":
+		t.In = append(t.In, t.In[0])
+		t.Sigs = make([]cipher.Sig, 1)
+	case "in_unknown":
+		t.In[n-1] = unknown(0)
+	case "in_all_unknown":
+		for i := range t.In {
+			t.In[i] = unknown(i)
+		}
+	case "in_extra_unknown":
+		t.In = append(t.In, unknown(7)) // one more input than signatures, the extra one unknown
+	case "in_extra_known":
+		t.In = append(t.In, t.In[0]) // one more input than signatures, all known
+	case "in_spent":
+		sp := w.firstSpent(1) // an output a confirmed transaction already spent
+		t.In[0] = sp.Hash()
+	case "in_many":
+		for i := 0; i < 40; i++ {
+			t.In = append(t.In, t.In[i%n])
+		}
+		t.Sigs = make([]cipher.Sig, 3)
+	case "inner_zero":
+		must(t.UpdateHeader(), "UpdateHeader")
+		t.InnerHash = cipher.SHA256{}
+		header = false
+	case "inner_stale":
+		t.Out[0].Coins++ // body changed, header left as it was
+		header = false
+	case "len_plus":
+		t.Length++
+		header = false
+	case "len_minus":
+		t.Length--
+		header = false
+	case "len_zero":
+		t.Length = 0
+		header = false
+	case "len_huge":
+		t.Length = 0xffffffff
+		header = false
+	case "type1":
+		t.Type = 1
+		header = false
+	case "type255":
+		t.Type = 255
+		header = false
+	case "out_none":
+		t.Out = nil
+	case "out_null":
+		t.Out[0].Address = cipher.Address{}
+	case "out_zerocoins":
+		t.Out[0].Coins = 0
+	case "out_overflow":
+		t.Out[0].Coins = 1 << 63
+		t.Out[1].Coins = 1 << 63
+	case "out_hours_overflow":
+		t.Out[0].Hours = ^uint64(0)
+		t.Out[1].Hours = 2
+	case "out_dup":
+		t.Out = append(t.Out, t.Out[0])
+	case "out_many":
+		for i := 0; i < 60; i++ {
+			t.Out = append(t.Out, coin.TransactionOutput{Address: t.Out[0].Address, Coins: 1000, Hours: uint64(i)})
+		}
+	case "out_precision":
+		t.Out[0].Coins = 1000001
+		t.Out[1].Coins--
+	default:
+		panic("harness: unknown mutation " + mut)
+	}
+	if header {
+		typ := t.Type
+		if err := t.UpdateHeader(); err != nil {
+			return base
+		}
+		t.Type = typ
+	}
+	return t
 }
